@@ -4,4 +4,8 @@ CLAIMED = {
   "note": "Bounds: layout N<=40 quick / N<=200 thorough with concrete distinct hashes (layout depends only on the order); sorting N<=3 quick / N<=5 thorough with fully symbolic items. Trusted: gosmx engine, z3, the in-harness reference traversal.",
  },
 }
+CLAIMED["C19"] = {
+  "text": "FormatDecoder.Next (every element type, symbolic size field and body), IndexFromReader and Protocol.ReadMessage are executed symbolically on arbitrary input bytes; every Go run-time check (slice, index, make, nil) and every allocation (<= 2*len(input)+64KiB) is a z3 obligation on every path, and accepted elements must fit in the input.",
+  "note": "Bounds: one element (quick) with size in the windows [0,112) u [2^63-24,2^63+24) u [2^64-41,2^64) (thorough: all 2^64 values), body 0/1/8/33 bytes; streams <= 48 bytes (thorough 96); index files <= 152 (thorough 192) bytes behind fixed index/table type fields; protocol messages <= 40 bytes. ArchiveDecoder.Next and HTTPIndexHandler.put are exercised under C18/C05/C15 harnesses, not here. Trusted: engine, z3.",
+}
 NA = {}
